@@ -22,6 +22,7 @@ func runC11(p *Prog, r *Report) {
 	c11R2R3(p, r, sites)
 	c11R4(p, r, sites)
 	c11R5(p, r, sites)
+	c11R6(p, r)
 }
 
 // mutableMethods: for every named type of the loaded module packages, does a pointer-receiver
@@ -640,7 +641,16 @@ func c11R4(p *Prog, r *Report, sites []*relaySite) {
 		check(fc, "relayNatConnTo", map[string]func(ast.Expr) bool{
 			"natConn":          isNat,
 			"natConnUnpacker":  str(func(v string) bool { return v == sn+".Unpacker" }),
-			"serverConn":       str(func(v string) bool { return strings.HasSuffix(v, ".serverConn") || strings.HasPrefix(v, "serverConn.") }),
+			"serverConn": func(e ast.Expr) bool {
+				v := exprStr(fc.ResolveUp(e))
+				if c, ok := ast.Unparen(e).(*ast.CallExpr); ok {
+					// serverConn.NewWConn() on a local copy of lnc.serverConn
+					if sel, ok := ast.Unparen(c.Fun).(*ast.SelectorExpr); ok {
+						v = exprStr(fc.ResolveUp(sel.X)) + "." + sel.Sel.Name + "()"
+					}
+				}
+				return strings.HasSuffix(v, ".serverConn") || strings.HasPrefix(v, "serverConn.") || strings.Contains(v, ".serverConn.")
+			},
 			"serverConnPacker": func(e ast.Expr) bool { return packerVar != nil && objOf(info, e) == packerVar },
 			"clientAddrInfo":   ofEntry,
 			"username":         str(func(v string) bool { return strings.HasSuffix(v, ".username") }),
@@ -743,4 +753,84 @@ func c11R5(p *Prog, r *Report, sites []*relaySite) {
 		r.Check(strings.Join(got, " ") == strings.Join(filtered, " "), rule, "service.UDPTransparentRelay~UDPNATRelay", p.posStr(ts[0].Recv.Body.Pos()), strings.Join(got, " → "), fmt.Sprintf("transparent relay steps differ from the NAT relay's minus unpacking:\n  transparent: %s\n  expected:    %s", strings.Join(got, " → "), strings.Join(filtered, " → ")))
 	}
 	r.Floor(rule, 3)
+}
+
+// c11R6: a message header's Name field holds a *pointer* to the destination sockaddr. When the
+// headers are initialised from a pointer variable, re-pointing that variable later (a client whose
+// address changed) does not move the headers: every later definition of the variable must be
+// followed, before the next batch write, by stores of the new pointer into the headers. (Headers
+// that point at a local sockaddr which is rewritten in place need nothing.)
+func c11R6(p *Prog, r *Report) {
+	const rule = "C11-R6"
+	r.Rule(rule, "batch sends go to the current address: in every function of package service that stores a pointer variable into Msghdr.Name of a message vector, each definition of that variable is followed on every path to the next WriteMsgs by a loop (or statement) storing it into the headers again; a header that points at the address of a local sockaddr (rewritten in place) is exempt")
+	pkg := p.Pkg("service")
+	n := 0
+	p.AllFuncs(pkg, func(top *FuncCtx) {
+		for _, fc := range allCtxs(p, top) {
+			info := fc.Info()
+			stores := map[types.Object][]int{}
+			for _, v := range fc.G.V {
+				as, ok := v.Node.(*ast.AssignStmt)
+				if !ok || v.Kind != VStmt || len(as.Lhs) != 1 || len(as.Rhs) != 1 {
+					continue
+				}
+				sel, ok := ast.Unparen(as.Lhs[0]).(*ast.SelectorExpr)
+				if !ok || sel.Sel.Name != "Name" || namedTypeName(info.TypeOf(sel.X)) != "Msghdr" {
+					continue
+				}
+				o, _ := objOf(info, as.Rhs[0]).(*types.Var)
+				if o == nil {
+					continue // address of a sockaddr: updated in place
+				}
+				if _, isPtr := o.Type().Underlying().(*types.Pointer); !isPtr {
+					continue
+				}
+				stores[o] = append(stores[o], v.ID)
+			}
+			for o, svs := range stores {
+				block := map[int]bool{}
+				for _, sv := range svs {
+					block[sv] = true
+					// the loop whose every iteration performs the store counts as the store
+					for _, h := range fc.G.V {
+						if h.Kind != VRange {
+							continue
+						}
+						body := h.Stmt.(*ast.RangeStmt).Body
+						n := fc.G.V[sv].Node
+						if body.Pos() <= n.Pos() && n.End() <= body.End() {
+							var starts []int
+							for _, e := range h.Succs {
+								if e.Label == LTrue {
+									starts = append(starts, e.To)
+								}
+							}
+							if !fc.G.Reach(starts, func(u *Vertex) bool { return u.ID == sv }, nil)[h.ID] {
+								block[h.ID] = true
+							}
+						}
+					}
+				}
+				var sends []int
+				for _, cs := range fc.AllCalls() {
+					if cs.Fn != nil && (cs.Fn.Name() == "WriteMsgs" || cs.Fn.Name() == "SendMsgs") {
+						sends = append(sends, cs.V)
+					}
+				}
+				for i, d := range fc.Defs(o) {
+					n++
+					reach := fc.G.ReachAfter(d, func(u *Vertex) bool { return block[u.ID] }, nil)
+					bad := false
+					for _, sv := range sends {
+						if reach[sv] {
+							bad = true
+						}
+					}
+					r.Check(!bad, rule, fmt.Sprintf("%s:%s-def#%d-reaches-headers", fc.Name, o.Name(), i), p.posStr(fc.G.V[d].Node.Pos()), "every definition of the destination pointer is stored into the message headers before the next batch write", "the destination pointer "+o.Name()+" is re-pointed ("+exprStr(fc.G.V[d].Node)+") but the message headers keep the old pointer: after the client's address changes, replies are still sent to the old address")
+				}
+			}
+		}
+	})
+	r.Count("destination_pointer_definitions", n)
+	r.Floor(rule, 2)
 }
